@@ -33,10 +33,15 @@ type Scn struct {
 	// AppID: the application id the terminal reports in its reply to the OSC 176 query ("" = the responder's
 	// default); any string the terminal was started with.
 	AppID string `json:",omitempty"`
+	// Prior: the process has run another Vaxis before this one (a second tty, a restart after Close), on a
+	// terminal advertising Prior-1 (0 = none), which drew the clusters this session draws. What that terminal
+	// advertised, and how text was measured for it, is nothing to this session.
+	Prior int `json:",omitempty"`
 }
 
 // Widget frames: besides the c01 cell operations a C07 frame may hold
 //
+//	{K: "setnext", R: row, Cell: c}              the cell c right of the cell set by the op before it (see Run)
 //	{K: "pager", R: row, Text: t, Style: s}      the library's pager widget drawn into the one-row window at row R
 //	                                             (fill and text in style s), holding the one-line text t
 //	{K: "input", R: row, Text: t, Cell: {G: p}, Shape: 0|1}
@@ -119,8 +124,27 @@ func HexSession(mask int, alt bool, variant, hexcase int) *Scn {
 // Run executes a session. Sessions without the C07 extras go through the c01 executor unchanged; the others
 // through the same steps with the extra option / reply form (cells, cursor, render/refresh frames, Close).
 func Run(ctx *c01.Ctx, sc *Scn) (evs []trace.Ev, note string) {
-	if sc.Queue == 0 && sc.Hex == 0 && sc.Cur == [2]int{} && sc.AppID == "" && !hasWidgets(sc) {
+	if sc.Queue == 0 && sc.Hex == 0 && sc.Cur == [2]int{} && sc.AppID == "" && sc.Prior == 0 && !hasWidgets(sc) {
 		return c01.Run(ctx, &sc.Scn)
+	}
+	if sc.Prior != 0 {
+		p, err := sess.Start(sess.Config{Caps: responder.FromMask(sc.Prior-1, false), Cols: sc.Cols, Rows: sc.Rows})
+		if err != nil {
+			return nil, "start of the prior session: " + err.Error()
+		}
+		pw := p.Vx.Window()
+		for _, f := range sc.Frames {
+			for _, op := range f.Ops {
+				switch op.K {
+				case "set", "setnext":
+					pw.Print(vaxis.Segment{Text: op.Cell.G})
+				case "pager", "input":
+					pw.Print(vaxis.Segment{Text: op.Text})
+				}
+			}
+		}
+		p.Vx.Render()
+		p.Vx.Close()
 	}
 	caps := responder.FromMask(sc.Mask, sc.Alt)
 	caps.XTVersion, caps.DA1Class, caps.HexCase = sc.TermID, sc.DA1Class, sc.Hex
@@ -155,6 +179,7 @@ func Run(ctx *c01.Ctx, sc *Scn) (evs []trace.Ev, note string) {
 	want := c01.NewRec(sc.Cols, sc.Rows, cv)
 	cur := []int{0, 0, 0, 0}
 	texts := map[int]*textRow{} // widget rows, by row
+	nextCol := 0
 	for _, f := range sc.Frames {
 		win := vx.Window()
 		for _, op := range f.Ops {
@@ -178,6 +203,16 @@ func Run(ctx *c01.Ctx, sc *Scn) (evs []trace.Ev, note string) {
 			case "set":
 				win.SetCell(op.C, op.R, op.Cell.V())
 				want.Apply(op)
+				nextCol = op.C + cv.AppWidth(op.Cell.G)
+			case "setnext":
+				// the cell right of the cell set before it, where this terminal's way of measuring ends that one (the
+				// application knows its terminal): a library measuring the cell before with another method, a width
+				// remembered from another terminal for instance, skips or displaces this one
+				o := op
+				o.K, o.C = "set", nextCol
+				win.SetCell(o.C, o.R, o.Cell.V())
+				want.Apply(o)
+				nextCol = o.C + cv.AppWidth(o.Cell.G)
 			case "show":
 				vx.ShowCursor(op.C, op.R, vaxis.CursorStyle(op.Shape))
 				cur = []int{1, op.R + 1, op.C + 1, op.Shape}
@@ -277,6 +312,9 @@ func WidgetSession(mask int, alt bool, variant int) *Scn {
 		ops := []c01.Op{
 			{K: "set", C: 0, R: 0, Cell: &c01.CellD{G: "r", W: 1}},
 			{K: "set", C: 1, R: 0, Cell: &c01.CellD{G: t(0), W: 0}},
+			{K: "setnext", R: 0, Cell: &c01.CellD{G: s1, W: 1}},
+			{K: "set", C: 20, R: 0, Cell: &c01.CellD{G: t(1), W: 0}},
+			{K: "setnext", R: 0, Cell: &c01.CellD{G: s2, W: 1}},
 		}
 		if variant%3 != 2 {
 			ops = append(ops, c01.Op{K: "pager", R: 1, Text: t(0) + s1 + p(0), Style: &bg},
